@@ -303,10 +303,15 @@ def main(argv=None):
         status = 2
     wall = time.time() - t0
     funcs = []
+    byq = {}
     for o in outs:
         for f in o['functions']:
-            if f not in funcs:
-                funcs.append(f)
+            key = (f.get('qualname'), f.get('file'))
+            if key in byq:
+                byq[key]['dropped'] = sorted(set(byq[key].get('dropped', [])) | set(f.get('dropped', [])))
+            else:
+                byq[key] = dict(f)
+                funcs.append(byq[key])
     assumptions = sorted(set(a for o in outs for a in o['assumptions']) | set(reg.ASSUMPTIONS.get(pid, []))
                          | set(reg.COMMON_ASSUMPTIONS))
     solver_time = {}
